@@ -70,6 +70,13 @@ class LogsDriver:
         self.own[sid] = lg
         return lg
 
+    def _levels(self, level):
+        """logging is (re)configured at any time: while a scope is being created every logger is all but silent, right
+        afterwards everything is enabled - what counts is the configuration at the moment a line is logged"""
+        self.w.root.setLevel(level)
+        for lg in self.own.values():
+            lg.setLevel(level)
+
     def _line(self, expect_sid, expect_text_tail, new_scope=None):
         """canonicalise the single line the last action produced"""
         # only lines the driver itself caused count (its messages, or a line that failed to format); whatever else the
@@ -186,7 +193,9 @@ class LogsDriver:
                 kw["trace_id"] = ""                 # ... or the empty text
                 self.empty_trace.add(sid)
             w.do(str(t), "tryu")     # a catch-all right outside the block (it survives a cancellation of the block)
+            self._levels(logging.CRITICAL + 10)
             w.do(str(t), "xscope", sid % 2 == 0, sid, lab, kw)
+            self._levels(logging.DEBUG)
             self.lines[:] = []
             w.do(str(t), "call", lambda: ctx.log_info("plain message"))   # probe through the scope just entered
             return self._fin(self._line(sid, "noargs", new_scope=sid), t)
@@ -206,7 +215,9 @@ class LogsDriver:
             elif owntrace == "empty":
                 kw["trace_id"] = ""
                 self.empty_trace.add(sid)
+            self._levels(logging.CRITICAL + 10)
             w.do(str(t), "prepare", "ascope" if sid % 2 == 0 else "sscope", sid, [], lab, kw)
+            self._levels(logging.DEBUG)
             self.lines[:] = []
             return self._fin(dict(lg=dict(kind="none", s=0), lvl="none", tr=dict(given=False, s=0), label="none", ident=0,
                                   text="none", exc=False, res="ok"), t)
